@@ -33,7 +33,7 @@ def run(chk):
     rng, thorough = chk.rng, chk.tier == "thorough"
     proof_ok = chk.proofs()
     jobs = []
-    n = 80 if thorough else 20
+    n = 240 if thorough else 60
     for k in range(n):
         cfg = W.random_config(rng, {"raw_mode": 1} if k % 10 == 9 else None)
         if k % 10 in (4, 8):
@@ -43,7 +43,8 @@ def run(chk):
         elif k % 2 == 0:
             jobs.append((chk.seed * 2000 + k, cfg, {}, None, 10 if thorough else 6, False, "clean"))
         else:
-            fault = {"drop": rng.choice([0.1, 0.3, 0.6, 1.0]), "dup": rng.choice([0.0, 0.3]), "delay": rng.choice([0, 200, 2000]), "ms": rng.choice([5000, 15000, 40000])}
+            fault = {"drop": rng.choice([0.1, 0.3, 0.6, 1.0]), "dup": rng.choice([0.0, 0.3]), "delay": rng.choice([0, 200, 2000]), "ms": rng.choice([5000, 15000, 40000]),
+                     "servfail": rng.choice([0.0, 0.0, 0.3, 0.6])}
             if cfg["raw_mode"] or cfg["seltimeout"] > 2:
                 # "never starving either side for 60 s": the client itself only pings every `selecttimeout` (20 s in raw mode) seconds, so a long
                 # total black-out plus its own idle gap would exceed the session timeout without the network being bad for 60 s
